@@ -153,6 +153,22 @@ fn run_codec(sc: &CodecSc) -> CodecRun {
                     vio.push(v("decode.need_more_touched_buffer", format!("need-more but buffer changed ({} -> {} bytes)", l, after.len())));
                     break 'session;
                 }
+                // the decoder takes the buffer as an argument: what it answered for this buffer
+                // must not colour its answer for another one (same Codec, unrelated buffer)
+                if l >= 4 {
+                    probes.push("same_codec_other_buffer");
+                    let probe_frame = crate::gen::tiny(sc.mode, 0x5A, 3);
+                    let mut other = BytesMut::from(&probe_frame[..]);
+                    let r2 = guarded(|| codec.decode(&mut other));
+                    let c2 = res_class(&r2);
+                    if !c2.starts_with("pkt:Tiny") || !other.is_empty() {
+                        vio.push(v(
+                            "decode.state_across_buffers",
+                            format!("after answering need-more for a buffer holding {} of {} bytes, the same Codec given a fresh buffer with one complete TINY frame returned {} and left {} bytes", l, ann, c2.chars().take(80).collect::<String>(), other.len()),
+                        ));
+                        break 'session;
+                    }
+                }
                 break;
             }
             // a complete frame of `ann` bytes is at the front
@@ -644,6 +660,7 @@ impl Prop for C04 {
             "partial_header_buffered",
             "decode_error_then_continue",
             "connection_reports_framing_error",
+            "same_codec_other_buffer",
         ]
     }
 }
